@@ -14,4 +14,5 @@ CONSTANTS
   BugAccessorMutates = TRUE
   BugJsonAlias = FALSE
   BugEntryPointWritesTables = FALSE
+  BugCopyDiffers = FALSE
 CHECK_DEADLOCK FALSE
